@@ -11,10 +11,11 @@ TReset == Is("reset") /\ Reset(E.cfg)
 TRound == Is("round") /\ Round([r \in R |-> IF E.res[r] = "l" THEN "h" ELSE E.res[r]])
           /\ \A r \in R : /\ E.status[r] = ev'.status[r] /\ E.cf[r] = ev'.cf[r] /\ E.cs[r] = ev'.cs[r] /\ E.checks[r] = 1
           /\ (Trig => (E.tu = ev'.tu /\ E.th = ev'.th /\ E.td = ev'.td /\ E.brk = brk'))
+TMid == Is("mid") /\ Mid([r \in R |-> IF E.res[r] = "l" THEN "h" ELSE E.res[r]], {r \in R : E.fin[r] = 1}, [r \in R |-> E.status[r]])
 TSel == Is("sel") /\ Select(E.kind, E.got)
 \* a configuration built separately reads back exactly as set (interval 10 ms, no initial delay; timeout cfg.tmo)
 TCfgView == Is("cfgview") /\ E.tmo = cfg.tmo /\ E.intv = 10 /\ E.delay = 0 /\ E.ft = cfg.ft /\ E.sth = cfg.sth /\ UNCHANGED vars
-TNext == TReset \/ TRound \/ TSel \/ TCfgView
+TNext == TReset \/ TRound \/ TSel \/ TCfgView \/ TMid
 Accepted ==
   LET d == TLCGet("stats").diameter IN
   IF d - 1 = Len(Rec) THEN TRUE ELSE Print(<<"REJECTED", d, ToJson(Rec[d])>>, FALSE)
